@@ -125,9 +125,19 @@ func readExpect(path string) (map[string]bool, bool) {
 		if ln == "" || strings.HasPrefix(ln, "#") {
 			continue
 		}
-		out[splitBase(ln)] = true
+		if strings.Contains(ln, "/sweep/") || expectable(ln) {
+			out[splitBase(ln)] = true
+		}
 	}
 	return out, true
+}
+
+// expectable: only obligations that stand for a clause somebody wrote (ensures, invariants, call-site asserts, lemmas)
+// are expected to be generated again. Frame, callee-precondition, no-panic, overflow and cover obligations depend on how
+// the engine happens to treat callees and heaps (inlined or under contract, touched or not); their disappearance after a
+// harmless change must not raise an alarm.
+func expectable(name string) bool {
+	return strings.Contains(name, "/ensures#") || strings.Contains(name, "/inv#") || strings.Contains(name, "/assert:") || strings.Contains(name, "/lemma")
 }
 
 var splitSuffix = regexp.MustCompile(`\.\d+$`)
@@ -396,6 +406,7 @@ func runCheck(r *propRun) int {
 	}
 	tSolve0 := time.Now()
 	// obligations recorded as known findings are expected to fail: give them the first two solver stages only
+	cfg.arming = r.update
 	cfg.short = map[string]bool{}
 	for _, kf := range readKnownFindings(filepath.Join(r.verif, "KNOWN_FINDINGS.txt")) {
 		if kf.Prop == r.prop {
@@ -488,7 +499,7 @@ func runCheck(r *propRun) int {
 				done[b] = true
 				if strings.HasPrefix(b, r.prop+"/sweep/") {
 					sweepLines = append(sweepLines, b)
-				} else {
+				} else if expectable(b) {
 					lines = append(lines, b)
 				}
 			}
@@ -578,6 +589,9 @@ func runCheck(r *propRun) int {
 	}
 	for _, x := range cat["pure"] {
 		assumptions = append(assumptions, "pure observer (uninterpreted function of its arguments; object assumed immutable): "+x)
+	}
+	for _, x := range cat["axiom"] {
+		assumptions = append(assumptions, "axiom (assumed without proof): "+x)
 	}
 	for _, x := range cat["getter"] {
 		assumptions = append(assumptions, "getter of an environment object (no effect; arbitrary result made of objects that existed before the call): "+x)
